@@ -108,6 +108,17 @@ prop('C03', 'model_checking',
      'stand-in log must show a successful verification under the real signing key for every acceptance', TOOL_NOTE,
      'TLA+ scenario spec + TLC + exhaustive replay', 'section 5 C03')
 
+prop('C20', 'fault_enumeration',
+     'ToolFaults.tla enumerates the fault catalogue of XmlSecFaults.tla (error exit, death by signal, empty / truncated / '
+     'garbled output, OK inside other text in six spellings, no output file, binary not startable) x invocation site '
+     '(response, assertion, decrypted-assertion, request and metadata verification; decryption with first/second key; '
+     'statement signing; assertion encryption) x position (first, later, every) x certificate/key order and states what must '
+     'be rejected / must raise; every scenario is replayed with the fault-injecting stand-in (in-process, and as a real '
+     'subprocess for a sixth of them and all signal/not-startable cases); the recorded invocations of every replay are '
+     'validated by the TLA+ monitor ToolFaultsTrace (an accepted identity or returned message must be backed by runs that '
+     'genuinely reported success)', TOOL_NOTE,
+     'TLA+ fault catalogue + TLC enumeration + fault-injection replay + TLC trace validation', 'section 5 C20')
+
 
 def main():
     props = [json.loads(l) for l in open(os.path.join(VERIF, 'properties.jsonl'))]
